@@ -23,6 +23,9 @@ Two families of bounded, completely enumerated sub-spaces (DESIGN section 4, C06
     the tick fields of the file they came from and whose parts carry ppq / mpq attributes - is edited
     (seconds only), saved with a second, independent (ppq, mpq) and loaded; the expectation is computed
     from the seconds of the saved parts rounded to the ticks of the second configuration.
+    "resave-layouts": files whose tracks are every sequence of part-yielding and non-part-yielding tracks.
+(e) track numbering ("rt-track-gaps"): Performances built from parts with arbitrary (gapped, non zero-based,
+    shared) track numbers; the numbers left by the constructor must survive the round trip.
 """
 import itertools
 import os
@@ -64,7 +67,13 @@ ASSUMPTIONS = [
     "it is saved; note_on_tick / note_off_tick / time_tick fields left by the importer and the ppq / mpq "
     "attributes of a PerformedPart are not times of the performance (the export resolution is the ppq / "
     "mpq chosen on export); the tracks of the written file are the track numbers in use in ascending "
-    "order; the second round is only run when the first one agreed with its own expectation",
+    "order (list / part input; a saved Performance must return every event with the track number it holds: the "
+    "statement's 'same track'); the second round is only run when the first one agreed with its own expectation",
+    "rt-track-gaps: when Performance() leaves numbers that are not a bijection onto 0..k-1 (reported as "
+    "rt-track-numbers-unique) but still one number per (part, track) and none shared, the round trip is run "
+    "with the numbers the Performance holds",
+    "resave-layouts: loading a file with tracks that yield no performed part does not claim which track numbers "
+    "the returned parts get (statement silent); only the save/load round of the returned Performance does",
     "silence-*: load_performance(..., first_note_at_zero=True) is the loaded content on a time axis whose "
     "origin is the first note onset: notes are compared exactly (time - origin); control and program "
     "changes are compared through the value in effect at every time >= 0 per (track, channel, number) "
@@ -501,6 +510,14 @@ def sanitize_map(res, case, perf):
     if not ok or vals != list(range(len(mp))):
         res.fail("rt-track-numbers-unique", expected="a bijection of (part, track) onto 0..%d" % (len(mp) - 1),
                  observed=sorted((list(k), v) for k, v in mp.items()), where="Performance.sanitize_track_numbers")
+        try:
+            usable = ok and all(int(v) == v and v >= 0 for v in mp.values()) and len(set(mp.values())) == len(mp)
+        except (TypeError, ValueError):
+            usable = False
+        if usable:
+            # the numbers are usable as they are (one number per (part, track), no number shared): the round
+            # trip is still run with the numbers the Performance holds ("same track" of the statement)
+            return dict((k, int(v)) for k, v in mp.items())
         return None
     return mp
 
@@ -780,14 +797,15 @@ def apply_edit(perf, edit, attrs, cfg2):
     return n_ops
 
 
-def expected_resave(parts, cfg2):
+def expected_resave(parts, cfg2, keep_tracks=False):
     """parts: the performed parts that are saved (after the edit).  The expectation is computed from their
     seconds: every time goes to its nearest tick of cfg2; the tracks of the file are the track numbers in
-    use in ascending order.  Returns (exp, groups)."""
+    use in ascending order (list / part input); keep_tracks (a Performance is saved): every event comes back
+    with the track number it has in the Performance.  Returns (exp, groups)."""
     ppq, mpq = cfg2
     per_part = [observe(_Parts([pp])) for pp in parts]
     used = sorted(set(int(r["track"]) for o in per_part for cat in ("notes", "controls", "programs") for r in o[cat]))
-    rank = dict((t, i) for i, t in enumerate(used))
+    rank = dict((t, t if keep_tracks else i) for i, t in enumerate(used))
 
     def opts(t):
         return M.tick_options(float(t), ppq, mpq)
@@ -843,7 +861,7 @@ def eval_resave(case):
     else:
         obj = perf.performedparts[0]
         parts = [obj]
-    ok, eg = guarded(res, "resave-loaded-structure", expected_resave, parts, cfg2)
+    ok, eg = guarded(res, "resave-loaded-structure", expected_resave, parts, cfg2, case["inp2"] == "perf")
     if not ok:
         res.outcome = "resave loaded-structure"
         return res
@@ -1220,6 +1238,84 @@ def gen_multi_part(max_parts, block=None, min_parts=2):
                         c = _rt(parts, cfg, inp, mg, IOS[i % 3], "lpm")
                         if valid_rt(c):
                             yield c
+
+
+GAP_TRACKS = (0, 1, 2, 4)
+# what a track of a part carries: N a note, NC a note and a control, C only a control, P only a program change
+GAP_CARRIERS = {1: [("N",), ("NC",), ("C",), ("P",)],
+                2: [("N", "N"), ("NC", "N"), ("C", "N"), ("N", "C"), ("N", "P"), ("P", "N")]}
+GAP_CORE = (("N",), ("NC",), ("N", "N"), ("NC", "N"))
+
+
+def gap_part_descs():
+    """every part description: a set of 1 or 2 track numbers out of GAP_TRACKS x what each track carries"""
+    out = []
+    for r in (1, 2):
+        for trs in itertools.combinations(GAP_TRACKS, r):
+            for car in GAP_CARRIERS[r]:
+                out.append((trs, car))
+    return out
+
+
+def _gap_part(pi, desc, cfg, i):
+    """events of different (part, track) have different pitches and disjoint time windows (merging never
+    makes equal pitches meet); no time is a tick tie"""
+    trs, car = desc
+    t = lambda x: M.tk(x, *cfg)
+    part = dict(notes=[], controls=[], programs=[])
+    for k, (tr, c) in enumerate(zip(trs, car)):
+        ch = [0, 1, 15][(pi + k + i) % 3]
+        base = 130 * (2 * pi + k)
+        if c in ("N", "NC"):
+            part["notes"].append([60 + 2 * pi + k, t(base + F(481, 5)), t(base + F(20049, 100)), [1, 64, 127][(i + k) % 3], ch, tr])
+        if c in ("NC", "C"):
+            part["controls"].append([t(base + F(1203, 10)), [64, 67, 1][(i + pi) % 3], (i * 37 + k) % 128, ch, tr])
+        if c == "P":
+            part["programs"].append([t(base + F(903, 10)), (i * 13 + k) % 128, ch, tr])
+    return part
+
+
+def gen_track_gaps(quick, seed):
+    """Performances whose parts use arbitrary (gapped, non zero-based, shared or distinct) track numbers"""
+    descs = gap_part_descs()
+    i = 0
+    B2, B3 = 4, 8
+    for d in descs:
+        for mg in MERGES:
+            i += 1
+            cfg = CONFIGS[i % 9]
+            c = _rt([_gap_part(0, d, cfg, i)], cfg, "perf", mg, IOS[i % 3], "lpm", layout=[list(d[0]), list(d[1])])
+            if valid_rt(c):
+                yield c
+    for da in descs:
+        for db in descs:
+            i += 1
+            core = da[1] in GAP_CORE and db[1] in GAP_CORE
+            if quick and not core and block_of(["gaps2", da, db], B2) != seed % B2:
+                continue
+            cfg = CONFIGS[i % 9]
+            mg = MERGES[0] if i % 2 else MERGES[(i // 2) % 4]
+            parts = [_gap_part(0, da, cfg, i), _gap_part(1, db, cfg, i)]
+            c = _rt(parts, cfg, "perf", mg, IOS[i % 3], "lp" if (i % 7 == 0 and IOS[i % 3] != "object") else "lpm",
+                    layout=[[list(d[0]), list(d[1])] for d in (da, db)])
+            if valid_rt(c):
+                yield c
+    # three parts: every triple of track sets, what the tracks carry cycled
+    sets = [trs for r in (1, 2) for trs in itertools.combinations(GAP_TRACKS, r)]
+    for ts in itertools.product(sets, repeat=3):
+        i += 1
+        if quick and block_of(["gaps3", ts], B3) != seed % B3:
+            continue
+        cfg = CONFIGS[i % 9]
+        ds = []
+        for k, trs in enumerate(ts):
+            cars = GAP_CARRIERS[len(trs)]
+            ds.append((trs, cars[(i // (1 + 5 * k) + k) % len(cars)]))
+        mg = MERGES[0] if i % 2 else MERGES[(i // 2) % 4]
+        c = _rt([_gap_part(k, d, cfg, i) for k, d in enumerate(ds)], cfg, "perf", mg, IOS[i % 3], "lpm",
+                layout=[[list(d[0]), list(d[1])] for d in ds])
+        if valid_rt(c):
+            yield c
 
 
 def gen_defaults():
@@ -1899,6 +1995,59 @@ def gen_resave_raw(layouts, ticks, values, maxlen, block=None, full_len=1):
                         yield c
 
 
+# kinds of file track: N note + control, C control only (both yield a performed part); M only text-like meta
+# events, Z nothing, T only a set_tempo event (none of them yields a part)
+LAYOUT_KINDS = ("N", "C", "M", "Z", "T")
+
+
+def _layout_tracks(kinds, merge):
+    tracks = []
+    kept = True  # every earlier track yields a part: the importer keeps this track's number
+    for ti, kind in enumerate(kinds):
+        ch = ti % 2
+        if kind == "N":
+            evs = [[20 * ti, "on", ch, 60 + ti, 64 + ti], [50 + 20 * ti, "cc", ch, 67, 10 + ti],
+                   [120 + 20 * ti, "off" if ti % 2 else "on0", ch, 60 + ti]]
+            if kept or merge:
+                evs.insert(0, [0, "meta", "text", {"text": "t%d" % ti}])
+        elif kind == "C":
+            evs = [[30 + ti, "cc", ch, 1, 5 + ti]]
+        elif kind == "M":
+            evs = [[0, "meta", "track_name", {"name": "m%d" % ti}], [40, "meta", "marker", {"text": "x"}]]
+        elif kind == "T":
+            evs = [[40 + 30 * ti, "tempo", [600000, 250000][ti % 2]]]
+        else:
+            evs = []
+        if kind not in ("N", "C"):
+            kept = False
+        tracks.append(evs)
+    return tracks
+
+
+def gen_resave_layouts(quick, seed):
+    """abstract files whose tracks are, in every order, tracks that yield a performed part and tracks that do
+    not (only meta events, empty, only a tempo change), loaded, then saved again and loaded"""
+    i = 0
+    B = 4
+    for n in range(1, 5):
+        for kinds in itertools.product(LAYOUT_KINDS, repeat=n):
+            if not any(k in ("N", "C") for k in kinds):
+                i += 6
+                continue  # no performed part at all
+            for merge in (0, 1):
+                for inp2 in ("perf", "list", "ppart"):
+                    i += 1
+                    if quick and n == 4 and block_of(["layouts", kinds], B) != seed % B:
+                        continue
+                    ppq = [480, 96][i % 2]
+                    first = dict(kind="raw", ppq=ppq, tracks=_layout_tracks(kinds, merge), merge=merge, bpm=120,
+                                 io=["object", "path"][(i // 2) % 2], loader="lp" if i % 10 == 1 else "lpm",
+                                 defaults=(i % 4 == 0), layout="".join(kinds))
+                    c = _resave(first, CONFIGS[i % 9], RESAVE_EDITS[i % len(RESAVE_EDITS)], RESAVE_ATTRS[(i // 6) % 2], i)
+                    c["inp2"] = inp2
+                    yield c
+
+
 def spaces(tier, seed):
     quick = tier == "quick"
     sp = []
@@ -2009,9 +2158,31 @@ def spaces(tier, seed):
                     "configuration in {(file ppq, 500000), (1000, 333333)}, edit and attributes cycled; default_bpm "
                     "{120, 100}, second input kind, default arguments, output kind and loader cycled" % (
                         "" if quick else ", 3 tracks", " (block %d of %d)" % (seed % BW, BW) if quick else "")))
+    BG2, BG3 = 4, 8
+    sp.append(Space("rt-track-gaps", lambda: gen_track_gaps(quick, seed), True,
+                    "Performances whose parts use arbitrary track numbers (gaps at the start, inside, numbers shared "
+                    "between parts or not): a part = a set of 1 or 2 track numbers out of {0,1,2,4} x what each track "
+                    "carries (1 track: note | note+control | control only | program only; 2 tracks: note/note, "
+                    "note+control/note, control/note, note/control, note/program, program/note) = 52 part descriptions; "
+                    "1 part: all x 4 merge combinations; 2 parts: all 52 x 52 ordered pairs%s; 3 parts: all 1000 triples of "
+                    "track sets%s, carriers cycled; merge flags (half of the cases unmerged), 9 (ppq,mpq), output kind and "
+                    "loader cycled; the numbers left by Performance() are checked (bijection onto 0..k-1) and the round "
+                    "trip and its second generation must return them" % (
+                        (" (both parts with notes on every track: complete; block %d of %d of the others)" % (seed % BG2, BG2),
+                         " (block %d of %d)" % (seed % BG3, BG3)) if quick else ("", ""))))
+    BL = 4
+    sp.append(Space("resave-layouts", lambda: gen_resave_layouts(quick, seed), True,
+                    "abstract files of 1..4 tracks, every sequence over the track kinds {note+control, control only, only "
+                    "text-like meta events, empty, only a set_tempo} with at least one track that yields a performed part%s "
+                    "x merge on load x second input kind {Performance, list of its parts, its first part}: loaded (compared "
+                    "as raw-*; track numbers are not claimed there when a track yields no part), edited, saved with (ppq2, "
+                    "mpq2) and loaded; a saved Performance must return every note / control / program / meta event with "
+                    "the track number it holds, a list / part with the track numbers in use in ascending order; second "
+                    "configuration, edit, part attributes, ppq{480,96}, output kind and loader cycled" % (
+                        " (4 tracks: block %d of %d of the kind sequences)" % (seed % BL, BL) if quick else "")))
     # files first, then the round trips from small to large (the runner keeps the first 20000 violations)
-    order = ["unit-time", "raw-keys", "raw-pairing", "raw-tempo", "resave-raw", "resave-rt", "silence-raw", "silence-rt", "rt-defaults", "rt-single-track", "rt-signatures", "rt-ranges",
-             "rt-multi-part", "rt-multi-part-3", "rt-two-notes", "rt-events", "rt-three-notes", "rt-one-note"]
+    order = ["unit-time", "raw-keys", "raw-pairing", "raw-tempo", "resave-raw", "resave-layouts", "resave-rt", "silence-raw", "silence-rt", "rt-defaults", "rt-single-track", "rt-signatures", "rt-ranges",
+             "rt-multi-part", "rt-track-gaps", "rt-multi-part-3", "rt-two-notes", "rt-events", "rt-three-notes", "rt-one-note"]
     sp.sort(key=lambda s: order.index(s.name))
     return sp
 
